@@ -180,7 +180,7 @@ class C04(Prop):
     coq_files = ("Base", "C04_Model", "C04_Spec", "C04_Proofs", "C04_Props")
     models = ("C04_Model",)
     packages = {"cc": "internal/app/connectconformance"}
-    kinds = {"c04.results": "cc", "c04.flow": "cc", "c04.run": "cc", "c04.peer": "cc"}
+    kinds = {"c04.results": "cc", "c04.flow": "cc", "c04.run": "cc", "c04.srvexit": "cc", "c04.peer": "cc"}
     rule = ("c04.results: EVERY assignment of {pass, assertion failure, client-reported error, setup error, could-not-run, never "
             "answered} x {unmarked, known-failing, known-flaky} x {feedback, none} to 1, 2 and 3 cases (ordered: 36 + 1,296 + 46,656 "
             "tables; thorough: the triples twice), each realised by a randomly chosen way the runner has of producing that fate "
@@ -198,6 +198,11 @@ class C04(Prop):
             "two batches (equal-sized all-pass batches, servers slow to stop so that the runner has seen the exit): the batches never "
             "started have no outcome and must be counted as could-not-run - there the sum of the four printed counts stands for "
             "'Total cases' (= number of selected cases in the model); compared: Run's ok, exit status, numbers and names. "
+            "c04.srvexit: the real Run() in server mode, one batch, the server under test a real OS process (cmdProcess of process.go) "
+            "that exits with STATUS 0 while the runner is about to send request k (schedule forced through the runner's own 'Sending "
+            "request' log line; the printer waits until the process has been reaped plus 1 s): the cases after the exit must end as "
+            "set-up errors and fail the run whatever their marking (all cases of a run alike - known-failing with failing replies, "
+            "known-flaky, unmarked passing - because the order inside a batch is map order; FAILED/INFO names compared by number). "
             "c04.peer: the real Run() in CLIENT mode - run()'s own in-process reference server / gRPC reference server wiring, real pipes "
             "and stderr reader - with this test binary re-executed as the client under test: it reports the scripted reply and puts a real "
             "HTTP/1.1 request on the wire that is as the case demands or wrong in a way only the server sees (codec, second request, "
@@ -277,6 +282,18 @@ class C04(Prop):
             j = rng.randint(1, nb - 1)
             batches = [[1, [["B%d/%s" % (b, x), 0] for x in "abc"[:n]]] for b in range(nb)]
             yield ["c04.run", [], [], batches, n * j, 1]
+        # a server under test (real OS process) that exits with status 0 in the middle of its batch: the cases after it
+        # are set-up failures whatever their marking (every run has known-failing / known-flaky cases behind the exit
+        # whose scripted replies would "fail as expected")
+        for i in range(3 if tier == "quick" else 30):
+            n = rng.randint(2, 4)
+            k = rng.randint(0, n - 2)
+            names = ["B0/" + x for x in "abcd"[:n]]
+            # all cases alike (their order inside the batch is Go's map order): known-failing with a failing reply,
+            # known-flaky with any reply, unmarked passing
+            marking = i % 3
+            reply = rng.choice([1, 2, 3]) if marking == 0 else (rng.choice([0, 1, 2, 3]) if marking == 1 else 0)
+            yield ["c04.srvexit", names if marking == 0 else [], names if marking == 1 else [], [[nm, reply] for nm in names], k]
         # client mode against the real in-process reference servers: every run has, for each protocol,
         # a matching result whose request only the server can fault (each defect), and the control
         for shape in ("B0", "B1"):
